@@ -306,6 +306,29 @@ int sch_ret(int tid, int op) { return g_ret[tid][op]; }
 int sch_lockpts(int tid, int op) { return g_lockpts[tid][op]; }
 int sch_tid(void) { return t_tid; }
 
+/* Allocation points: a schedule point at a heap allocation made by a worker while it is inside an
+ * operation and holds no mutex.  Code that (wrongly) runs without the lock has no synchronisation
+ * operation for the explorer to switch at; its allocations (value copies, result vectors) give the
+ * explorer a foothold inside it. */
+static int g_alloc_on;
+void sch_alloc_points(int on) { g_alloc_on = on; }
+static int holds_any(int tid)
+{
+    for (int i = 0; i < g_nm; i++)
+        if (g_owner[i] == tid)
+            return 1;
+    return 0;
+}
+void sch_alloc_point(void)
+{
+    if (!g_alloc_on || !g_active || t_tid < 0)
+        return;
+    int me = t_tid;
+    if (g_status[me] != ST_RUNNING || g_curop[me] < 0 || holds_any(me))
+        return;
+    point(SCH_ALLOC, NULL);
+}
+
 /* ---- interposed lock operations ------------------------------------------------------------------ */
 int pthread_mutex_lock(pthread_mutex_t* m)
 {
